@@ -10,6 +10,8 @@ import Ndt.Model.Guards
 import Ndt.Model.Select
 import Ndt.Model.Diff
 import Ndt.Model.Points
+import Ndt.Model.Jacobian
+import Ndt.Model.Hessian
 import Ndt.Gen.BicomplexRing
 /-! The line-protocol driver: one operation per input line, one output line per input line. -/
 namespace Ndt.Driver
@@ -107,8 +109,41 @@ def diffOfString : String → Option DiffName
 def pt4Str (p : Pt4 Float) : String := s!"{toHex p.re},{toHex p.im},{toHex p.z2re},{toHex p.z2im}"
 def evalPtStr (e : EvalPt Float) : String := ";".intercalate (e.map (fun (k, p) => s!"{k}:{pt4Str p}"))
 
+instance : OfNat Rat 4 := ⟨4⟩
+
+/-- a multivariate polynomial with rational coefficients: monomials `c:e0,e1,…` -/
+def parseMono (s : String) : Rat × List Nat :=
+  match s.splitOn ":" with
+  | [c, es] => (rq c, (es.splitOn ",").map String.toNat!)
+  | _ => (0, [])
+def evalMPoly (ms : List (Rat × List Nat)) (y : Nat → Rat) : Rat :=
+  ms.foldl (fun acc (c, es) => acc + c * ((List.range es.length).foldl (fun p k => p * npow (y k) (es.getD k 0)) 1)) 0
+
 def handle (w : List String) : String :=
   match w with
+  -- jacravel n m [k]: the layout of one stacked row, with the symbolic entries 10000 j + 100 i + l
+  | ["jacravel", n, m] =>
+    joinSp ((jacRavel2 n.toNat! m.toNat! (fun j i => ((10000 * j + 100 * i : Nat) : Rat))).map ratStr) ++ " | " ++
+      joinSp ((jacShape n.toNat! [m.toNat!]).map toString)
+  | ["jacravel", n, m, k] =>
+    joinSp ((jacRavel3 n.toNat! m.toNat! k.toNat! (fun j i l => ((10000 * j + 100 * i + l : Nat) : Rat))).map ratStr) ++ " | " ++
+      joinSp ((jacShape n.toNat! [m.toNat!, k.toNat!]).map toString)
+  -- hesscell name n | x… | h… | monomials… : the per-step Hessian matrix (row-major) of a rational polynomial, exact
+  | "hesscell" :: name :: n :: rest =>
+    match splitBar rest with
+    | [_, xs, hs, ms] =>
+      let x := rats xs; let h := rats hs
+      let f : (Nat → Rat) → Rat := evalMPoly (ms.map parseMono)
+      let xf : Nat → Rat := fun k => x.getD k 0
+      let hf : Nat → Rat := fun k => h.getD k 0
+      let fx := f xf
+      let cell : Nat → Nat → Rat :=
+        if name == "_forward" then hessForwardCell f fx xf hf
+        else if name == "_backward" then hessForwardCell f fx xf (fun k => -(hf k))
+        else if name == "_central_even" then hessCentralCell f fx xf hf
+        else hessCentral2Cell f fx xf hf
+      joinSp ((hessFlat cell n.toNat!).map ratStr)
+    | _ => "bad-op"
   -- pts <class> <name> sjre sjim sqrt2 | x… | h…  (Float): the arguments handed to the user function
   | "pts" :: cls :: name :: a :: b :: c :: rest =>
     let pc : PtConsts Float := ⟨fb a, fb b, fb c⟩
